@@ -11,9 +11,15 @@
       the established sessions AND the new one get their disconnect handler exactly once if a
       cause is aimed at them, are untouched otherwise, nothing is left behind, nothing raises.
    3. The connect handler runs at most once per request, whatever it answers
-      ([connect_handler_at_most_once]). *)
+      ([connect_handler_at_most_once]).
+   4. The REFUSING connect (section 4 at the end): its tail does touch the manager (pre_disconnect
+      with always_connect, manager.disconnect in the finally), so there is no reduction to the
+      run without it; instead the counting invariant of ConcProofs.v is re-established over
+      abstract counts ([SafeA]) with the equalities restricted to the session ids other than the
+      refused one and two-sided bounds on pending_disconnect for every id, and lifted through
+      the blocks of both kinds of task ([connect_in_progress_refuse_partial]). *)
 From Coq Require Import Lia.
-From VT Require Import Conc.ConnConc Conc.ConcProofs.
+From VT Require Import Conc.MgrFacts Conc.ConnConc Conc.ConcProofs.
 Local Open Scope nat_scope.
 
 (* the remaining blocks of the task do not access the shared state *)
@@ -265,3 +271,816 @@ Example x_conn_start :
   hcount (s2l "S2") (s2l "/c") (c_log (x_cfg x)) = 1 /\ chcount (s2l "S2") (s2l "/c") (x_log x) = 1 /\
   get_namespaces (c_mgr (x_cfg x)) = [s2l "/"].
 Proof. vm_compute. repeat split; reflexivity. Qed.
+
+(* ================================================================== *)
+(* 4. the REFUSING connect                                             *)
+(* ================================================================== *)
+
+(* ---- manager level: what manager.disconnect / pre_disconnect of one sid change ---- *)
+Lemma disc_pcount m sid ns :
+  WF m -> forall ns' s', pcount (mgr_disconnect m sid ns) ns' s' =
+                         pcount m ns' s' - (if str_eqb ns ns' && str_eqb sid s' then 1 else 0).
+Proof.
+  intros HW ns' s'. destruct (ns_rooms m ns) eqn:E.
+  - apply mgr_disconnect_pcount; [apply HW|congruence].
+  - destruct (mgr_disconnect_spec m sid ns HW) as (_ & _ & _ & Hn). rewrite (Hn E).
+    apply disc_release_pcount. apply HW.
+Qed.
+Lemma disc_callbacks m sid ns :
+  WF m -> callbacks (mgr_disconnect m sid ns) = adel str_eqb (callbacks m) sid.
+Proof.
+  intros HW. destruct (mgr_disconnect_spec m sid ns HW) as (_ & _ & Hs & Hn).
+  destruct (ns_rooms m ns) eqn:E.
+  - apply Hs. congruence.
+  - rewrite (Hn eq_refl). apply disc_release_callbacks.
+Qed.
+
+(* manager.disconnect(sid, ns) is invisible to every other session id: memberships (hence
+   is_connected, the reverse lookup of a well-formed manager), pending marks and callbacks *)
+Lemma refusal_frame_mgr m sid ns :
+  WF m ->
+  let m' := mgr_disconnect m sid ns in
+  WF m' /\
+  forall s', s' <> sid ->
+    (forall ns' r, room_ok r -> mem m' ns' r s' = mem m ns' r s') /\
+    (forall ns', mb m' ns' s' = mb m ns' s') /\
+    (forall ns', pcount m' ns' s' = pcount m ns' s') /\
+    (forall ns', is_connected m' (Some s') ns' = is_connected m (Some s') ns') /\
+    aget str_eqb (callbacks m') s' = aget str_eqb (callbacks m) s'.
+Proof.
+  intros HW m'. destruct (mgr_disconnect_spec m sid ns HW) as (HW' & Erem & _ & _). fold m' in HW', Erem.
+  split; [exact HW'|]. intros s' Hne.
+  assert (Hk : forall ns', str_eqb ns ns' && str_eqb sid s' = false).
+  { intro ns'. rewrite (str_neq sid s') by congruence. apply andb_false_r. }
+  assert (Hmem : forall ns' r, room_ok r -> mem m' ns' r s' = mem m ns' r s').
+  { intros ns' r Hr. rewrite (Erem ns' r s' Hr), Hk. reflexivity. }
+  assert (Hmb : forall ns', mb m' ns' s' = mb m ns' s').
+  { intro ns'. unfold mb. rewrite (Hmem ns' PNone room_ok_None). reflexivity. }
+  assert (Hpc : forall ns', pcount m' ns' s' = pcount m ns' s').
+  { intro ns'. unfold m'. rewrite (disc_pcount m sid ns HW), Hk. lia. }
+  split; [exact Hmem|]. split; [exact Hmb|]. split; [exact Hpc|]. split.
+  - intro ns'. rewrite !is_connected_spec, Hpc, (Hmem ns' PNone room_ok_None). reflexivity.
+  - unfold m'. rewrite (disc_callbacks m sid ns HW). apply aget_adel_other. congruence.
+Qed.
+
+(* ---- the invariant, over abstract counts ---- *)
+Definition fn := str -> str -> nat.
+Definition kk (sid ns0 s ns : str) : nat := b2n (str_eqb ns0 ns && str_eqb sid s).
+
+Lemma kk_same sid ns0 : kk sid ns0 sid ns0 = 1.
+Proof. unfold kk. rewrite !str_eqb_refl. reflexivity. Qed.
+Lemma kk_other_sid sid ns0 s ns : s <> sid -> kk sid ns0 s ns = 0.
+Proof. intro H. unfold kk. rewrite (str_neq sid s) by congruence. rewrite andb_false_r. reflexivity. Qed.
+Lemma kk_cases sid ns0 s ns : (kk sid ns0 s ns = 1 /\ s = sid /\ ns = ns0) \/ kk sid ns0 s ns = 0.
+Proof.
+  unfold kk. destruct (str_eqb ns0 ns && str_eqb sid s) eqn:E; [left|right; reflexivity].
+  apply andb_true_iff in E as [A B]. apply str_eqb_eq in A, B. subst. auto.
+Qed.
+Lemma kk_if sid ns0 s ns : (if str_eqb ns0 ns && str_eqb sid s then 1 else 0) = kk sid ns0 s ns.
+Proof. reflexivity. Qed.
+
+Section Abs.
+  Variables (x nx : str) (m0 m1 : mgr).
+  (* the registration of x is invisible to the other sids *)
+  Hypothesis H01 : forall ns s, s <> x -> mb m1 ns s = mb m0 ns s.
+
+  (* [pre] counts the tasks between their mark and the handler PLUS the connect task between
+     its own mark (always_connect refusal) and its manager.disconnect; [xd]: the connect task
+     has performed the manager.disconnect of its refusal *)
+  Record SafeA (xd : bool) (m : mgr) (pre post win hc : fn) : Prop := mkSafeA {
+    a_wf : WF m;
+    a_cb : NoDup (map fst (callbacks m));
+    a_le : forall s ns, pcount m ns s <= pre s ns + post s ns;
+    a_ge : forall s ns, mb m ns s = 1 -> pre s ns + post s ns <= pcount m ns s;
+    a_win : forall s ns, 1 <= win s ns -> mb m ns s = 1 /\ pcount m ns s = 0;
+    a_hand : forall s ns, s <> x -> hc s ns + mb m ns s = mb m0 ns s + post s ns;
+    a_own : forall s ns, s <> x -> pre s ns + post s ns <= mb m ns s;
+    a_frame : forall ns r s, room_ok r ->
+                mem m ns r s = if is_some (mem m ns PNone s) then mem m1 ns r s else None;
+    a_cbs : forall s, s <> x -> (forall ns, mb m ns s = mb m0 ns s) ->
+                aget str_eqb (callbacks m) s = aget str_eqb (callbacks m0) s;
+    a_cbs_gone : forall s ns, s <> x -> mb m0 ns s = 1 -> mb m ns s = 0 ->
+                aget str_eqb (callbacks m) s = None;
+    a_xdone : xd = true -> mb m nx x = 0 /\ aget str_eqb (callbacks m) x = None;
+    a_xother : forall ns, ns <> nx -> mb m ns x = 0 }.
+
+  Lemma a_mono xd m pre post win hc : SafeA xd m pre post win hc -> forall ns s, mb m ns s <= mb m1 ns s.
+  Proof.
+    intros HS ns s. pose proof (a_frame _ _ _ _ _ _ HS ns PNone s room_ok_None) as H. unfold mb.
+    destruct (mem m ns PNone s) as [e|] eqn:E; cbn [is_some b2n] in *; [|lia].
+    rewrite <- H. cbn. lia.
+  Qed.
+
+  (* a step that does not touch the manager and moves no mark *)
+  Lemma A_frame xd m pre post win hc pre' post' win' hc' :
+    SafeA xd m pre post win hc ->
+    (forall s ns, pre' s ns = pre s ns) -> (forall s ns, post' s ns = post s ns) ->
+    (forall s ns, hc' s ns = hc s ns) ->
+    (forall s ns, 1 <= win' s ns -> 1 <= win s ns \/ (mb m ns s = 1 /\ pcount m ns s = 0)) ->
+    SafeA xd m pre' post' win' hc'.
+  Proof.
+    intros HS Hpre Hpost Hhc Hwin. constructor.
+    - apply HS.
+    - apply HS.
+    - intros s ns. rewrite Hpre, Hpost. apply HS.
+    - intros s ns. rewrite Hpre, Hpost. apply HS.
+    - intros s ns H. destruct (Hwin s ns H) as [H1|H1]; [apply (a_win _ _ _ _ _ _ HS s ns H1)|exact H1].
+    - intros s ns. rewrite Hhc, Hpost. apply HS.
+    - intros s ns. rewrite Hpre, Hpost. apply HS.
+    - apply HS.
+    - apply HS.
+    - apply HS.
+    - apply HS.
+    - apply HS.
+  Qed.
+
+  (* pre_disconnect(sid, ns0) by a task whose window is open, or by the connect task *)
+  Lemma A_mark xd m pre post win hc sid ns0 pre' post' win' hc' :
+    SafeA xd m pre post win hc ->
+    (forall s ns, pre' s ns = pre s ns + kk sid ns0 s ns) -> (forall s ns, post' s ns = post s ns) ->
+    (forall s ns, hc' s ns = hc s ns) ->
+    (forall s ns, 1 <= win' s ns -> 1 <= win s ns /\ kk sid ns0 s ns = 0) ->
+    (sid <> x -> 1 <= win sid ns0) ->
+    SafeA xd (fst (pre_disconnect m sid ns0)) pre' post' win' hc'.
+  Proof.
+    intros HS Hpre Hpost Hhc Hwin Hown.
+    destruct (pre_disconnect_fst m sid ns0) as (Er & Ec & Ep).
+    set (m' := fst (pre_disconnect m sid ns0)) in *.
+    assert (Em : mem m' = mem m) by (apply mem_ext; exact Er).
+    assert (Emb : forall ns s, mb m' ns s = mb m ns s) by (intros; unfold mb; rewrite Em; reflexivity).
+    assert (Ep' : forall ns s, pcount m' ns s = pcount m ns s + kk sid ns0 s ns).
+    { intros ns s. rewrite Ep. reflexivity. }
+    constructor.
+    - apply pre_disconnect_wf. apply HS.
+    - rewrite Ec. apply HS.
+    - intros s ns. rewrite Ep', Hpre, Hpost. pose proof (a_le _ _ _ _ _ _ HS s ns). lia.
+    - intros s ns H. rewrite Emb in H. rewrite Ep', Hpre, Hpost. pose proof (a_ge _ _ _ _ _ _ HS s ns H). lia.
+    - intros s ns H. destruct (Hwin s ns H) as [H1 H2]. destruct (a_win _ _ _ _ _ _ HS s ns H1) as [A B].
+      rewrite Emb, Ep'. split; [exact A|lia].
+    - intros s ns Hs. rewrite Hhc, Hpost, Emb. apply HS. exact Hs.
+    - intros s ns Hs. rewrite Hpre, Hpost, Emb. pose proof (a_own _ _ _ _ _ _ HS s ns Hs) as Ho.
+      destruct (kk_cases sid ns0 s ns) as [(K & -> & ->)|K]; rewrite K; [|lia].
+      destruct (a_win _ _ _ _ _ _ HS sid ns0 (Hown Hs)) as [A B].
+      pose proof (a_ge _ _ _ _ _ _ HS sid ns0 A). lia.
+    - intros ns r s Hr. rewrite Em. apply HS. exact Hr.
+    - intros s Hs H. rewrite Ec. apply HS; [exact Hs|]. intros ns. rewrite <- Emb. apply H.
+    - intros s ns Hs H1 H2. rewrite Ec. apply (a_cbs_gone _ _ _ _ _ _ HS s ns Hs H1). rewrite <- Emb. exact H2.
+    - intro Hx. rewrite Emb, Ec. apply HS. exact Hx.
+    - intros ns Hn. rewrite Emb. apply HS. exact Hn.
+  Qed.
+
+  (* the disconnect handler of (sid, ns0) is invoked by the task that marked it *)
+  Lemma A_call xd m pre post win hc sid ns0 pre' post' win' hc' :
+    SafeA xd m pre post win hc ->
+    (forall s ns, pre' s ns + kk sid ns0 s ns = pre s ns) ->
+    (forall s ns, post' s ns = post s ns + kk sid ns0 s ns) ->
+    (forall s ns, hc' s ns = hc s ns + kk sid ns0 s ns) ->
+    (forall s ns, win' s ns = win s ns) ->
+    SafeA xd m pre' post' win' hc'.
+  Proof.
+    intros HS Hpre Hpost Hhc Hwin. constructor.
+    - apply HS.
+    - apply HS.
+    - intros s ns. pose proof (Hpre s ns). pose proof (Hpost s ns). pose proof (a_le _ _ _ _ _ _ HS s ns). lia.
+    - intros s ns H. pose proof (Hpre s ns). pose proof (Hpost s ns). pose proof (a_ge _ _ _ _ _ _ HS s ns H). lia.
+    - intros s ns H. rewrite Hwin in H. apply (a_win _ _ _ _ _ _ HS s ns H).
+    - intros s ns Hs. pose proof (Hhc s ns). pose proof (Hpost s ns). pose proof (a_hand _ _ _ _ _ _ HS s ns Hs). lia.
+    - intros s ns Hs. pose proof (Hpre s ns). pose proof (Hpost s ns). pose proof (a_own _ _ _ _ _ _ HS s ns Hs). lia.
+    - apply HS.
+    - apply HS.
+    - apply HS.
+    - apply HS.
+    - apply HS.
+  Qed.
+
+  (* manager.disconnect(sid, ns0): by the task that owns (sid, ns0), or by the connect task
+     (then every window is closed: the connect's blocks run between the tasks' blocks) *)
+  Lemma A_fin xd xd' m pre post win hc sid ns0 pre' post' win' hc' :
+    SafeA xd m pre post win hc ->
+    (forall s ns, pre' s ns <= pre s ns) -> (forall s ns, post' s ns <= post s ns) ->
+    (forall s ns, pre s ns + post s ns <= pre' s ns + post' s ns + kk sid ns0 s ns) ->
+    (sid <> x -> (forall s ns, post' s ns + kk sid ns0 s ns = post s ns) /\ 1 <= post sid ns0) ->
+    (forall s ns, win' s ns = win s ns) -> (forall s ns, hc' s ns = hc s ns) ->
+    (1 <= pre sid ns0 + post sid ns0 \/ forall s ns, win s ns = 0) ->
+    (xd = true -> xd' = true) -> (xd' = true -> xd = true \/ (sid = x /\ ns0 = nx)) ->
+    SafeA xd' (mgr_disconnect m sid ns0) pre' post' win' hc'.
+  Proof.
+    intros HS Hpre Hpost Hdec Hex Hwin Hhc Htok Hxd1 Hxd2.
+    set (m' := mgr_disconnect m sid ns0).
+    pose proof (a_wf _ _ _ _ _ _ HS) as HW.
+    destruct (mgr_disconnect_spec m sid ns0 HW) as (HW' & Erem & _ & _). fold m' in HW', Erem.
+    pose proof (disc_callbacks m sid ns0 HW) as Ecb. fold m' in Ecb.
+    assert (Ep : forall ns s, pcount m' ns s = pcount m ns s - kk sid ns0 s ns).
+    { intros ns s. unfold m'. rewrite (disc_pcount m sid ns0 HW). reflexivity. }
+    assert (Emb : forall ns s, mb m' ns s = if str_eqb ns0 ns && str_eqb sid s then 0 else mb m ns s).
+    { intros ns s. unfold mb. rewrite (Erem ns PNone s room_ok_None). destruct (str_eqb ns0 ns && str_eqb sid s); reflexivity. }
+    assert (Emb1 : forall ns s, mb m' ns s = 1 -> kk sid ns0 s ns = 0 /\ mb m ns s = 1).
+    { intros ns s. rewrite Emb. unfold kk. destruct (str_eqb ns0 ns && str_eqb sid s); cbn [b2n]; [discriminate|auto]. }
+    assert (Emb0 : forall ns s, kk sid ns0 s ns = 0 -> mb m' ns s = mb m ns s).
+    { intros ns s. rewrite Emb. unfold kk. destruct (str_eqb ns0 ns && str_eqb sid s); cbn [b2n]; [discriminate|auto]. }
+    assert (EmbK : mb m' ns0 sid = 0) by (rewrite Emb, !str_eqb_refl; reflexivity).
+    assert (Emble : forall ns s, mb m' ns s <= mb m ns s).
+    { intros ns s. rewrite Emb. destruct (str_eqb ns0 ns && str_eqb sid s); lia. }
+    constructor; fold m'.
+    - exact HW'.
+    - rewrite Ecb. apply nodup_adel. apply HS.
+    - intros s ns. rewrite Ep. pose proof (a_le _ _ _ _ _ _ HS s ns). pose proof (Hdec s ns). lia.
+    - intros s ns H. destruct (Emb1 ns s H) as [K H1]. rewrite Ep, K.
+      pose proof (a_ge _ _ _ _ _ _ HS s ns H1). pose proof (Hpre s ns). pose proof (Hpost s ns). lia.
+    - intros s ns H. rewrite Hwin in H. destruct (a_win _ _ _ _ _ _ HS s ns H) as [A B].
+      destruct (kk_cases sid ns0 s ns) as [(K & -> & ->)|K].
+      + exfalso. pose proof (a_ge _ _ _ _ _ _ HS sid ns0 A). destruct Htok as [T|T]; [lia|].
+        rewrite T in H. lia.
+      + rewrite (Emb0 ns s K), Ep, K. split; [exact A|lia].
+    - intros s ns Hs. rewrite Hhc. pose proof (a_hand _ _ _ _ _ _ HS s ns Hs) as Hh.
+      destruct (kk_cases sid ns0 s ns) as [(K & -> & ->)|K].
+      + destruct (Hex Hs) as [Hp1 Hp2]. pose proof (Hp1 sid ns0) as Hp3. rewrite K in Hp3.
+        pose proof (a_own _ _ _ _ _ _ HS sid ns0 Hs). pose proof (mb_le1 m ns0 sid). rewrite EmbK. lia.
+      + rewrite (Emb0 ns s K). pose proof (Hpre s ns). pose proof (Hpost s ns). pose proof (Hdec s ns). lia.
+    - intros s ns Hs. pose proof (a_own _ _ _ _ _ _ HS s ns Hs) as Ho.
+      destruct (kk_cases sid ns0 s ns) as [(K & -> & ->)|K].
+      + destruct (Hex Hs) as [Hp1 Hp2]. pose proof (Hp1 sid ns0) as Hp3. rewrite K in Hp3.
+        pose proof (mb_le1 m ns0 sid). pose proof (Hpre sid ns0). rewrite EmbK. lia.
+      + rewrite (Emb0 ns s K). pose proof (Hpre s ns). pose proof (Hpost s ns). lia.
+    - intros ns r s Hr. rewrite (Erem ns r s Hr), (Erem ns PNone s room_ok_None).
+      destruct (str_eqb ns0 ns && str_eqb sid s); [reflexivity|]. apply HS. exact Hr.
+    - intros s Hs H. rewrite Ecb.
+      destruct (str_eqb sid s) eqn:E.
+      + apply str_eqb_eq in E. subst s. exfalso. specialize (H ns0). rewrite EmbK in H.
+        destruct (Hex Hs) as [_ Hp2]. pose proof (a_own _ _ _ _ _ _ HS sid ns0 Hs).
+        pose proof (a_mono _ _ _ _ _ _ HS ns0 sid). rewrite (H01 ns0 sid Hs) in H1. lia.
+      + rewrite aget_adel_other by (intro; subst; rewrite str_eqb_refl in E; discriminate).
+        apply HS; [exact Hs|]. intros ns. rewrite <- H. symmetry. apply Emb0. unfold kk. rewrite E, andb_false_r. reflexivity.
+    - intros s ns Hs H1 H2. rewrite Ecb. destruct (str_eqb ns0 ns && str_eqb sid s) eqn:E.
+      + apply andb_true_iff in E as [_ E]. apply str_eqb_eq in E. subst s. apply aget_adel_same. apply HS.
+      + apply aget_adel_none. apply (a_cbs_gone _ _ _ _ _ _ HS s ns Hs H1). rewrite Emb, E in H2. exact H2.
+    - intro Hx. destruct (Hxd2 Hx) as [Hx0|[-> ->]].
+      + destruct (a_xdone _ _ _ _ _ _ HS Hx0) as [A B]. pose proof (Emble nx x). split; [lia|].
+        rewrite Ecb. apply aget_adel_none. exact B.
+      + split; [exact EmbK|]. rewrite Ecb. apply aget_adel_same. apply HS.
+    - intros ns Hn. pose proof (a_xother _ _ _ _ _ _ HS ns Hn). pose proof (Emble ns x). lia.
+  Qed.
+End Abs.
+
+(* ---- the invariant of a configuration, beside a connect task at pc [p] ---- *)
+Section Conc.
+  Variables (ac : bool) (R : list str) (x nx : str) (m0 m1 : mgr).
+  Hypothesis H01 : forall ns s, s <> x -> mb m1 ns s = mb m0 ns s.
+
+  (* the connect task holds a mark of its own between the pre_disconnect of the
+     always_connect refusal and its manager.disconnect *)
+  Definition br (p : cpc) : nat := if ac then match p with KSendErr => 1 | _ => 0 end else 0.
+  Definition xdone (p : cpc) : bool := match p with KDone => true | _ => false end.
+  Definition preF (p : cpc) (c : cfg) : fn := fun s ns => cnt (at_pre s ns) (c_tasks c) + br p * kk x nx s ns.
+  Definition postF (c : cfg) : fn := fun s ns => cnt (at_post s ns) (c_tasks c).
+  Definition winF (c : cfg) : fn := fun s ns => cnt (in_window s ns) (c_tasks c).
+  Definition hcF (c : cfg) : fn := fun s ns => hcount s ns (c_log c).
+  Definition SafeC (p : cpc) (c : cfg) : Prop :=
+    SafeA x nx m0 m1 (xdone p) (c_mgr c) (preF p c) (postF c) (winF c) (hcF c).
+
+  Lemma safeC_frame p c i t t' env' l :
+    SafeC p c -> nth_error (c_tasks c) i = Some t ->
+    (forall s ns, at_pre s ns t' = at_pre s ns t) ->
+    (forall s ns, at_post s ns t' = at_post s ns t) ->
+    (forall s ns, in_window s ns t' = true ->
+                  in_window s ns t = true \/ (mb (c_mgr c) ns s = 1 /\ pcount (c_mgr c) ns s = 0)) ->
+    (forall s ns x0, In x0 l -> is_handler s ns x0 = false) ->
+    SafeC p (mkCfg (c_mgr c) env' (upd (c_tasks c) i t') (c_log c ++ l)).
+  Proof.
+    intros HS Hn Hpre Hpost Hwin Hl. unfold SafeC. cbn [c_mgr].
+    apply (A_frame x nx m0 m1 _ _ _ _ _ _ _ _ _ _ HS); unfold preF, postF, winF, hcF; cbn [c_tasks c_log].
+    - intros s ns. rewrite (cnt_upd_eq _ _ _ _ _ Hn (Hpre s ns)). reflexivity.
+    - intros s ns. apply (cnt_upd_eq _ _ _ _ _ Hn (Hpost s ns)).
+    - intros s ns. rewrite hcount_app, (hcount_none s ns l) by (intros; eapply Hl; eauto). lia.
+    - intros s ns H. pose proof (cnt_upd (in_window s ns) _ _ _ t' Hn) as E.
+      destruct (in_window s ns t') eqn:Ew.
+      + destruct (Hwin s ns Ew) as [Ht|Hc]; [left|right; exact Hc].
+        eapply cnt_in; [eapply nth_error_In; exact Hn|exact Ht].
+      + left. cbn [b2n] in E. lia.
+  Qed.
+
+  Lemma safeC_idle p c i t t' env' l :
+    SafeC p c -> nth_error (c_tasks c) i = Some t ->
+    idle_pc (t_pc t) = true -> idle_pc (t_pc t') = true ->
+    (forall s ns x0, In x0 l -> is_handler s ns x0 = false) ->
+    SafeC p (mkCfg (c_mgr c) env' (upd (c_tasks c) i t') (c_log c ++ l)).
+  Proof.
+    intros HS Hn H1 H2 Hl. apply safeC_frame with (t := t); auto.
+    - intros. rewrite !idle_pre by assumption. reflexivity.
+    - intros. rewrite !idle_post by assumption. reflexivity.
+    - intros s ns H. rewrite idle_win in H by assumption. discriminate.
+  Qed.
+
+  Lemma safeC_mark p c i t sid p' l :
+    SafeC p c -> double_window c = false -> nth_error (c_tasks c) i = Some t ->
+    t_pc t = PMark sid ->
+    (p' = PCall sid \/ exists e, p' = PSend sid e) ->
+    (forall s ns x0, In x0 l -> is_handler s ns x0 = false) ->
+    exists e, mem (c_mgr c) (t_ns t) PNone sid = Some e /\
+              snd (pre_disconnect (c_mgr c) sid (t_ns t)) = Ok (Some e) /\
+    forall env', SafeC p (mkCfg (fst (pre_disconnect (c_mgr c) sid (t_ns t))) env'
+                             (upd (c_tasks c) i (set_pc t p')) (c_log c ++ l)).
+  Proof.
+    intros HS Hndw Hn Hpc Hp' Hl. set (ns0 := t_ns t).
+    assert (Hw : in_window sid ns0 t = true) by (unfold in_window; rewrite Hpc; apply eqb2; auto).
+    assert (Hc1 : 1 <= cnt (in_window sid ns0) (c_tasks c)) by (eapply cnt_in; [eapply nth_error_In; exact Hn|exact Hw]).
+    destruct (a_win _ _ _ _ _ _ _ _ _ _ HS sid ns0 Hc1) as [Hmb Hpc0].
+    apply mb_one in Hmb as [e He]. exists e. split; [exact He|].
+    split; [apply pre_disconnect_member; exact He|]. intro env'.
+    set (t' := set_pc t p').
+    assert (Hpre : forall s ns, at_pre s ns t' = str_eqb sid s && str_eqb ns0 ns).
+    { intros s ns. unfold at_pre, t'. cbn. destruct Hp' as [->|[e' ->]]; reflexivity. }
+    assert (Hpre0 : forall s ns, at_pre s ns t = false) by (intros; unfold at_pre; rewrite Hpc; reflexivity).
+    assert (Hpost : forall s ns, at_post s ns t' = false).
+    { intros s ns. unfold at_post, t'. cbn. destruct Hp' as [->|[e' ->]]; reflexivity. }
+    assert (Hpost0 : forall s ns, at_post s ns t = false) by (intros; unfold at_post; rewrite Hpc; reflexivity).
+    assert (Hwin' : forall s ns, in_window s ns t' = false).
+    { intros s ns. unfold in_window, t'. cbn. destruct Hp' as [->|[e' ->]]; reflexivity. }
+    assert (Hwin0 : forall s ns, in_window s ns t = str_eqb sid s && str_eqb ns0 ns).
+    { intros s ns. unfold in_window. rewrite Hpc. reflexivity. }
+    assert (B : forall s ns, b2n (str_eqb sid s && str_eqb ns0 ns) = kk sid ns0 s ns)
+      by (intros; unfold kk; rewrite andb_comm; reflexivity).
+    unfold SafeC. cbn [c_mgr].
+    apply (A_mark x nx m0 m1 _ _ _ _ _ _ sid ns0 _ _ _ _ HS); unfold preF, postF, winF, hcF; cbn [c_tasks c_log].
+    - intros s ns. pose proof (cnt_upd (at_pre s ns) _ _ _ t' Hn) as E. rewrite Hpre, Hpre0, B in E. cbn [b2n] in E. lia.
+    - intros s ns. apply (cnt_upd_eq _ _ _ _ _ Hn). rewrite Hpost, Hpost0. reflexivity.
+    - intros s ns. rewrite hcount_app, (hcount_none s ns l) by (intros; eapply Hl; eauto). lia.
+    - intros s ns H. pose proof (cnt_upd (in_window s ns) _ _ _ t' Hn) as E. rewrite Hwin', Hwin0, B in E. cbn [b2n] in E.
+      destruct (kk_cases sid ns0 s ns) as [(K & -> & ->)|K]; [|lia].
+      pose proof (ndw_cnt _ Hndw sid ns0). lia.
+    - intros _. exact Hc1.
+  Qed.
+
+  Lemma safeC_call p c i t sid e env' reason :
+    SafeC p c -> nth_error (c_tasks c) i = Some t -> t_pc t = PCall sid ->
+    SafeC p (mkCfg (c_mgr c) env' (upd (c_tasks c) i (set_pc t (PFin sid e)))
+                (c_log c ++ [LHandler sid (t_ns t) reason])).
+  Proof.
+    intros HS Hn Hpc. set (ns0 := t_ns t). set (t' := set_pc t (PFin sid e)).
+    assert (Hpre : forall s ns, at_pre s ns t' = false) by reflexivity.
+    assert (Hpre0 : forall s ns, at_pre s ns t = str_eqb sid s && str_eqb ns0 ns)
+      by (intros; unfold at_pre; rewrite Hpc; reflexivity).
+    assert (Hpost : forall s ns, at_post s ns t' = str_eqb sid s && str_eqb ns0 ns) by reflexivity.
+    assert (Hpost0 : forall s ns, at_post s ns t = false) by (intros; unfold at_post; rewrite Hpc; reflexivity).
+    assert (Hwin : forall s ns, in_window s ns t' = in_window s ns t)
+      by (intros; unfold in_window; rewrite Hpc; reflexivity).
+    assert (B : forall s ns, b2n (str_eqb sid s && str_eqb ns0 ns) = kk sid ns0 s ns)
+      by (intros; unfold kk; rewrite andb_comm; reflexivity).
+    unfold SafeC. cbn [c_mgr].
+    apply (A_call x nx m0 m1 _ _ _ _ _ _ sid ns0 _ _ _ _ HS); unfold preF, postF, winF, hcF; cbn [c_tasks c_log].
+    - intros s ns. pose proof (cnt_upd (at_pre s ns) _ _ _ t' Hn) as E. rewrite Hpre, Hpre0, B in E. cbn [b2n] in E. lia.
+    - intros s ns. pose proof (cnt_upd (at_post s ns) _ _ _ t' Hn) as E. rewrite Hpost, Hpost0, B in E. cbn [b2n] in E. lia.
+    - intros s ns. rewrite hcount_app. f_equal. unfold hcount. cbn [filter is_handler]. rewrite <- B.
+      destruct (str_eqb sid s && str_eqb ns0 ns); reflexivity.
+    - intros s ns. apply (cnt_upd_eq _ _ _ _ _ Hn (Hwin s ns)).
+  Qed.
+
+  Lemma safeC_fin p c i t sid e t' env' l :
+    SafeC p c -> nth_error (c_tasks c) i = Some t -> t_pc t = PFin sid e ->
+    idle_pc (t_pc t') = true ->
+    (forall s ns x0, In x0 l -> is_handler s ns x0 = false) ->
+    SafeC p (mkCfg (mgr_disconnect (c_mgr c) sid (t_ns t)) env' (upd (c_tasks c) i t') (c_log c ++ l)).
+  Proof.
+    intros HS Hn Hpc Hidle Hl. set (ns0 := t_ns t).
+    assert (Hpost0 : forall s ns, at_post s ns t = str_eqb sid s && str_eqb ns0 ns)
+      by (intros; unfold at_post; rewrite Hpc; reflexivity).
+    assert (Hpre0 : forall s ns, at_pre s ns t = false) by (intros; unfold at_pre; rewrite Hpc; reflexivity).
+    assert (Hwin0 : forall s ns, in_window s ns t = false) by (intros; unfold in_window; rewrite Hpc; reflexivity).
+    assert (B : forall s ns, b2n (str_eqb sid s && str_eqb ns0 ns) = kk sid ns0 s ns)
+      by (intros; unfold kk; rewrite andb_comm; reflexivity).
+    assert (Cpre : forall s ns, cnt (at_pre s ns) (upd (c_tasks c) i t') = cnt (at_pre s ns) (c_tasks c)).
+    { intros s ns. apply (cnt_upd_eq _ _ _ _ _ Hn). rewrite Hpre0. apply idle_pre. exact Hidle. }
+    assert (Cwin : forall s ns, cnt (in_window s ns) (upd (c_tasks c) i t') = cnt (in_window s ns) (c_tasks c)).
+    { intros s ns. apply (cnt_upd_eq _ _ _ _ _ Hn). rewrite Hwin0. apply idle_win. exact Hidle. }
+    assert (Cpost : forall s ns, cnt (at_post s ns) (upd (c_tasks c) i t') + kk sid ns0 s ns =
+                                 cnt (at_post s ns) (c_tasks c)).
+    { intros s ns. pose proof (cnt_upd (at_post s ns) _ _ _ t' Hn) as E. rewrite Hpost0, B in E.
+      rewrite (idle_post s ns t' Hidle) in E. cbn [b2n] in E. lia. }
+    assert (Hown : 1 <= cnt (at_post sid ns0) (c_tasks c)).
+    { eapply cnt_in; [eapply nth_error_In; exact Hn|]. rewrite Hpost0. apply eqb2. auto. }
+    unfold SafeC. cbn [c_mgr].
+    apply (A_fin x nx m0 m1 H01 (xdone p) (xdone p) _ _ _ _ _ sid ns0 _ _ _ _ HS);
+      unfold preF, postF, winF, hcF; cbn [c_tasks c_log].
+    - intros s ns. rewrite Cpre. lia.
+    - intros s ns. pose proof (Cpost s ns). lia.
+    - intros s ns. rewrite Cpre. pose proof (Cpost s ns). lia.
+    - intros _. split; [exact Cpost|exact Hown].
+    - exact Cwin.
+    - intros s ns. rewrite hcount_app, (hcount_none s ns l) by (intros; eapply Hl; eauto). lia.
+    - left. lia.
+    - auto.
+    - auto.
+  Qed.
+  Lemma safeC_micro p c i t :
+    SafeC p c -> double_window c = false -> nth_error (c_tasks c) i = Some t ->
+    forall m env t' l, micro false R (c_mgr c) (c_env c) t = (m, env, t', l) ->
+    SafeC p (mkCfg m env (upd (c_tasks c) i t') (c_log c ++ l)).
+  Proof.
+    intros HS Hndw Hn m env t' l. unfold micro.
+    destruct (t_pc t) as [| |osid|sid|sid eio|sid|sid e| | |psid|aosid] eqn:Hpc.
+    - (* PInit *)
+      destruct (end_ns _ None) as [t1 l1] eqn:E. intro H; inversion H; subst; clear H.
+      apply (safeC_idle p) with (t := t); auto.
+      + rewrite Hpc; reflexivity.
+      + change t' with (fst (t', l1)). rewrite <- E. apply end_ns_idle.
+      + intros s ns x0 [<-|Hx]; [reflexivity|]. change l1 with (snd (t', l1)) in Hx. rewrite <- E in Hx.
+        eapply end_ns_not_handler; eauto.
+    - (* PLookup *)
+      destruct (eio_of (t_cause t)) as [eio0|]; intro H; inversion H; subst; clear H.
+      + apply (safeC_idle p) with (t := t); auto; try (rewrite Hpc; reflexivity).
+        intros s ns x0 [<-|[]]; reflexivity.
+      + apply (safeC_idle p) with (t := t); auto; [rewrite Hpc; reflexivity|intros ? ? ? []].
+    - (* PCheck *)
+      destruct osid as [sid|].
+      + destruct (is_connected (c_mgr c) (Some sid) (t_ns t)) eqn:Ec.
+        * intro H; inversion H; subst; clear H.
+          apply (safeC_frame p) with (t := t); auto.
+          -- intros; unfold at_pre; rewrite Hpc; reflexivity.
+          -- intros; unfold at_post; rewrite Hpc; reflexivity.
+          -- intros s ns Hw. right. unfold in_window in Hw. cbn in Hw. apply eqb2 in Hw as [<- <-].
+             rewrite is_connected_spec in Ec. apply andb_true_iff in Ec as [E1 E2].
+             split; [unfold mb; rewrite E2; reflexivity|].
+             destruct (pcount (c_mgr c) (t_ns t) sid); [reflexivity|discriminate].
+          -- intros s ns x0 [<-|[]]; reflexivity.
+        * destruct (end_ns t None) as [t1 l1] eqn:E. intro H; inversion H; subst; clear H.
+          apply (safeC_idle p) with (t := t); auto.
+          -- rewrite Hpc; reflexivity.
+          -- change t' with (fst (t', l1)). rewrite <- E. apply end_ns_idle.
+          -- intros s ns x0 [<-|Hx]; [reflexivity|]. change l1 with (snd (t', l1)) in Hx. rewrite <- E in Hx.
+             eapply end_ns_not_handler; eauto.
+      + destruct (end_ns t None) as [t1 l1] eqn:E. intro H; inversion H; subst; clear H.
+        apply (safeC_idle p) with (t := t); auto.
+        * rewrite Hpc; reflexivity.
+        * change t' with (fst (t', l1)). rewrite <- E. apply end_ns_idle.
+        * intros s ns x0 [<-|Hx]; [reflexivity|]. change l1 with (snd (t', l1)) in Hx. rewrite <- E in Hx.
+          eapply end_ns_not_handler; eauto.
+    - (* PMark *)
+      rewrite (surjective_pairing (pre_disconnect (c_mgr c) sid (t_ns t))).
+      assert (Hp' : forall eio, (match t_cause t with CApi _ _ => PSend sid eio | _ => PCall sid end) = PCall sid \/
+                                exists e0, (match t_cause t with CApi _ _ => PSend sid eio | _ => PCall sid end) = PSend sid e0).
+      { intro eio0. destruct (t_cause t); [right; eauto|left; reflexivity|left; reflexivity]. }
+      destruct (snd (pre_disconnect (c_mgr c) sid (t_ns t))) as [eio|ex] eqn:Es.
+      + intro H; inversion H; subst; clear H.
+        destruct (safeC_mark p c i t sid _ [LMark sid (t_ns t) (Ok eio)] HS Hndw Hn Hpc (Hp' eio)) as (e0 & _ & _ & Hsafe).
+        * intros s ns x0 [<-|[]]; reflexivity.
+        * apply Hsafe.
+      + exfalso.
+        destruct (safeC_mark p c i t sid (PCall sid) [] HS Hndw Hn Hpc (or_introl eq_refl)) as (e0 & _ & Hs & _).
+        * intros ? ? ? [].
+        * congruence.
+    - (* PSend *)
+      intro H; inversion H; subst; clear H.
+      apply (safeC_frame p) with (t := t); auto.
+      + intros; unfold at_pre; rewrite Hpc; reflexivity.
+      + intros; unfold at_post; rewrite Hpc; reflexivity.
+      + intros s ns Hw. discriminate Hw.
+      + intros s ns x0 [<-|[]]; reflexivity.
+    - (* PCall *)
+      intro H; inversion H; subst; clear H. apply safeC_call; auto.
+    - (* PFin *)
+      destruct (end_ns t e) as [t1 l1] eqn:E. intro H; inversion H; subst; clear H.
+      apply safeC_fin with (e := e); auto.
+      + change t' with (fst (t', l1)). rewrite <- E. apply end_ns_idle.
+      + intros s ns x0 [<-|Hx]; [reflexivity|]. change l1 with (snd (t', l1)) in Hx. rewrite <- E in Hx.
+        eapply end_ns_not_handler; eauto.
+    - (* PEnv *)
+      destruct (eio_of (t_cause t)) as [eio0|]; intro H; inversion H; subst; clear H.
+      + apply (safeC_idle p) with (t := t); auto; [rewrite Hpc; reflexivity|].
+        intros s ns x0 [<-|Hx]; [reflexivity|]. destruct (t_exc t); [destruct Hx as [<-|[]]; reflexivity|destruct Hx].
+      + apply (safeC_idle p) with (t := t); auto; [rewrite Hpc; reflexivity|intros ? ? ? []].
+    - (* PDone *)
+      intro H; inversion H; subst; clear H.
+      apply (safeC_idle p) with (t := t'); auto; [rewrite Hpc; reflexivity|rewrite Hpc; reflexivity|intros ? ? ? []].
+    - (* PPre *)
+      destruct (is_connected (c_mgr c) (Some psid) (t_ns t)).
+      + intro H; inversion H; subst; clear H.
+        apply (safeC_idle p) with (t := t); auto; [rewrite Hpc; reflexivity|].
+        intros s ns x0 [<-|[]]; reflexivity.
+      + destruct (end_ns t None) as [t1 l1] eqn:E. intro H; inversion H; subst; clear H.
+        apply (safeC_idle p) with (t := t); auto.
+        * rewrite Hpc; reflexivity.
+        * change t' with (fst (t', l1)). rewrite <- E. apply end_ns_idle.
+        * intros s ns x0 [<-|Hx]; [reflexivity|]. change l1 with (snd (t', l1)) in Hx. rewrite <- E in Hx.
+          eapply end_ns_not_handler; eauto.
+    - (* PAcq *)
+      intro H; inversion H; subst; clear H.
+      apply (safeC_idle p) with (t := t); auto; [rewrite Hpc; reflexivity|].
+      intros s ns x0 [<-|[]]; reflexivity.
+  Qed.
+
+  (* ---- the blocks of the refusing connect task (they run between the tasks' blocks) ---- *)
+  Lemma quiet_win c : quiet c -> forall s ns, winF c s ns = 0.
+  Proof.
+    intros Hq s ns. unfold winF. apply cnt_zero. intros t Ht. specialize (Hq t Ht).
+    unfold in_window. unfold window_of in Hq. destruct (t_pc t); try reflexivity. discriminate.
+  Qed.
+
+  Lemma safeC_cnoac c : ac = false -> SafeC KHandler c -> SafeC KSendErr c.
+  Proof.
+    intros Hac HS. unfold SafeC in *. cbn [xdone] in *.
+    apply (A_frame x nx m0 m1 _ _ _ _ _ _ _ _ _ _ HS); auto.
+    intros s ns. unfold preF, br. rewrite Hac. reflexivity.
+  Qed.
+
+  Lemma safeC_cmark c :
+    ac = true -> SafeC KHandler c -> quiet c ->
+    SafeC KSendErr (set_mgr c (fst (pre_disconnect (c_mgr c) x nx))).
+  Proof.
+    intros Hac HS Hq. unfold SafeC in *. cbn [xdone set_mgr c_mgr] in *.
+    apply (A_mark x nx m0 m1 _ _ _ _ _ _ x nx _ _ _ _ HS).
+    - intros s ns. unfold preF, br. rewrite Hac. cbn [set_mgr c_tasks]. lia.
+    - reflexivity.
+    - reflexivity.
+    - intros s ns H. exfalso. change (winF (set_mgr c (fst (pre_disconnect (c_mgr c) x nx))) s ns) with (winF c s ns) in H.
+      rewrite (quiet_win c Hq) in H. lia.
+    - intro N. congruence.
+  Qed.
+
+  Lemma safeC_cdisc p c :
+    (p = KHandler \/ p = KSendErr) -> SafeC p c -> quiet c ->
+    SafeC KDone (set_mgr c (mgr_disconnect (c_mgr c) x nx)).
+  Proof.
+    intros Hp HS Hq. unfold SafeC in *. cbn [set_mgr c_mgr].
+    assert (Hb : br p <= 1 /\ br KDone = 0).
+    { unfold br. destruct ac; destruct Hp as [-> | ->]; lia. }
+    destruct Hb as [Hb1 Hb0].
+    apply (A_fin x nx m0 m1 H01 (xdone p) (xdone KDone) _ _ _ _ _ x nx _ _ _ _ HS).
+    - intros s ns. unfold preF. rewrite Hb0. cbn [set_mgr c_tasks]. lia.
+    - intros s ns. unfold postF. cbn [set_mgr c_tasks]. lia.
+    - intros s ns. unfold preF, postF. rewrite Hb0. cbn [set_mgr c_tasks].
+      assert (br p * kk x nx s ns <= kk x nx s ns) by (destruct (br p) as [|[|?]]; lia). lia.
+    - intro N. congruence.
+    - reflexivity.
+    - reflexivity.
+    - right. apply quiet_win. exact Hq.
+    - destruct Hp as [-> | ->]; discriminate.
+    - intros _. right. auto.
+  Qed.
+End Conc.
+
+
+(* ---- the prefix that brings an admitted request to its handler, whatever it will answer ---- *)
+Lemma prefix_to_handler ac R m0 env0 causes k :
+  memb (k_eio k) env0 = true -> snd (mgr_connect m0 (k_eio k) (k_ns k) (k_sid k)) <> None ->
+  let x := xrun ac R (xinit m0 env0 causes [k]) (to_handler ac (List.length causes)) in
+  x_cfg x = init GAsync (fst (mgr_connect m0 (k_eio k) (k_ns k) (k_sid k))) env0 causes /\
+  x_conns x = [mkCT k KHandler] /\ chcount (k_sid k) (k_ns k) (x_log x) = 0.
+Proof.
+  intros Henv Hadm.
+  assert (Hstep : forall x : xcfg, List.length (c_tasks (x_cfg x)) = List.length causes ->
+            forall t, x_conns x = [t] ->
+            xstep ac R x (List.length causes) =
+            let '(m', t', l) := cstep ac (c_mgr (x_cfg x)) (c_env (x_cfg x)) t in
+            (mkX (set_mgr (x_cfg x) m') [t'] (x_log x ++ l), l)).
+  { intros x Hl t Ht. unfold xstep. rewrite Hl, Nat.ltb_irrefl, Nat.sub_diag, Ht. cbn [nth_error upd].
+    reflexivity. }
+  unfold to_handler, xinit.
+  set (x0 := mkX (init GAsync m0 env0 causes) (map (fun k0 => mkCT k0 KStart) [k]) []).
+  assert (H0 : xstep ac R x0 (List.length causes) =
+               let '(m', t', l) := cstep ac m0 env0 (mkCT k KStart) in
+               (mkX (set_mgr (init GAsync m0 env0 causes) m') [t'] ([] ++ l), l)).
+  { apply (Hstep x0); [apply init_tasks_length|reflexivity]. }
+  unfold cstep in H0. cbn [ct_pc ct_conn] in H0.
+  destruct (mgr_connect m0 (k_eio k) (k_ns k) (k_sid k)) as [mm r] eqn:Ec. cbn [fst snd] in *.
+  destruct r as [s|]; [|congruence].
+  destruct ac.
+  - cbn [xrun]. rewrite H0. cbn [fst].
+    match goal with |- context [xstep true R ?x1 _] =>
+      assert (H1 : xstep true R x1 (List.length causes) =
+                   let '(m', t', l) := cstep true (c_mgr (x_cfg x1)) (c_env (x_cfg x1)) (set_cpc (mkCT k KStart) KSendC) in
+                   (mkX (set_mgr (x_cfg x1) m') [t'] (x_log x1 ++ l), l))
+        by (apply (Hstep x1); [apply init_tasks_length|reflexivity]) end.
+    rewrite H1. unfold cstep, env_get. cbn [ct_pc ct_conn set_cpc x_cfg set_mgr c_env c_mgr init].
+    rewrite Henv. cbn [fst x_cfg x_conns x_log set_mgr set_cpc c_mgr c_env c_tasks c_log ct_pc ct_conn].
+    split; [reflexivity|]. split; reflexivity.
+  - cbn [xrun]. rewrite H0. unfold env_get. rewrite Henv.
+    cbn [fst x_cfg x_conns x_log set_mgr set_cpc init c_mgr c_env c_tasks c_log ct_pc ct_conn].
+    split; [reflexivity|]. split; reflexivity.
+Qed.
+
+Section RefuseRun.
+  Variables (ac : bool) (R : list str) (m0 : mgr) (env0 : list str) (causes : list cause) (k : conn).
+  Hypothesis Q0 : quiescent_start m0.
+  Hypothesis F0 : fresh_sid m0 (k_sid k).
+  Hypothesis Hrefuse : k_accept k = false.
+  Hypothesis Hadm : snd (mgr_connect m0 (k_eio k) (k_ns k) (k_sid k)) <> None.
+  Local Notation x := (k_sid k).
+  Local Notation nx := (k_ns k).
+  Local Notation m1 := (fst (mgr_connect m0 (k_eio k) (k_ns k) (k_sid k))).
+
+  Lemma reg_facts :
+    WF m1 /\ pending m1 = pending m0 /\ callbacks m1 = callbacks m0 /\
+    (forall ns r s, room_ok r -> s <> x -> mem m1 ns r s = mem m0 ns r s) /\
+    (forall ns, ns <> nx -> mem m1 ns PNone x = None).
+  Proof.
+    pose proof Hadm as Ha. destruct Q0 as (HW & _ & _).
+    destruct (mgr_connect m0 (k_eio k) nx x) as [mm r] eqn:E. cbn [fst snd] in *.
+    destruct (mgr_connect_spec _ _ _ _ _ _ HW F0 E) as (HW1 & Hp & Hc & Hr).
+    destruct r as [s0|]; [|congruence]. destruct Hr as (_ & _ & Hm).
+    split; [exact HW1|]. split; [exact Hp|]. split; [exact Hc|]. split.
+    - intros ns r s Hr Hs. rewrite (Hm ns r s Hr). rewrite (str_neq x s) by congruence.
+      rewrite andb_false_r. reflexivity.
+    - intros ns Hn. rewrite (Hm ns PNone x room_ok_None). rewrite (str_neq nx ns) by congruence.
+      cbn [andb]. apply F0.
+  Qed.
+
+  Lemma H01 : forall ns s, s <> x -> mb m1 ns s = mb m0 ns s.
+  Proof.
+    destruct reg_facts as (_ & _ & _ & Hm & _). intros ns s Hs. unfold mb.
+    rewrite (Hm ns PNone s room_ok_None Hs). reflexivity.
+  Qed.
+
+  Lemma br_handler : br ac KHandler = 0.
+  Proof. unfold br. destruct ac; reflexivity. Qed.
+
+  Lemma safeC_init : SafeC ac x nx m0 m1 KHandler (init GAsync m1 env0 causes).
+  Proof.
+    destruct reg_facts as (HW1 & Hp & Hc & Hm & Hx). destruct Q0 as (HW & HN & HP).
+    assert (Hidle : forall t, In t (c_tasks (init GAsync m1 env0 causes)) -> idle_pc (t_pc t) = true).
+    { intros t Ht. cbn [init c_tasks] in Ht. apply in_map_iff in Ht as (k0 & <- & _). destruct k0; reflexivity. }
+    assert (Cpre : forall s ns, cnt (at_pre s ns) (c_tasks (init GAsync m1 env0 causes)) = 0)
+      by (intros; apply cnt_zero; intros t Ht; apply idle_pre, Hidle, Ht).
+    assert (Cpost : forall s ns, cnt (at_post s ns) (c_tasks (init GAsync m1 env0 causes)) = 0)
+      by (intros; apply cnt_zero; intros t Ht; apply idle_post, Hidle, Ht).
+    assert (Cwin : forall s ns, cnt (in_window s ns) (c_tasks (init GAsync m1 env0 causes)) = 0)
+      by (intros; apply cnt_zero; intros t Ht; apply idle_win, Hidle, Ht).
+    assert (Hpc : forall ns s, pcount m1 ns s = 0) by (intros; unfold pcount, plist, agetd; rewrite Hp, HP; reflexivity).
+    unfold SafeC. constructor; unfold preF, postF, winF, hcF; rewrite ?br_handler.
+    - exact HW1.
+    - cbn [init c_mgr]. rewrite Hc. exact HN.
+    - intros s ns. cbn [init c_mgr]. rewrite Hpc. lia.
+    - intros s ns _. rewrite Cpre, Cpost. lia.
+    - intros s ns H. rewrite Cwin in H. lia.
+    - intros s ns Hs. rewrite Cpost. cbn [init c_mgr c_log]. rewrite (H01 ns s Hs). cbn. lia.
+    - intros s ns Hs. rewrite Cpre, Cpost. lia.
+    - intros ns r s Hr. cbn [init c_mgr]. destruct (mem m1 ns PNone s) eqn:E; cbn [is_some]; [reflexivity|].
+      destruct (mem m1 ns r s) eqn:E2; [|reflexivity].
+      destruct HW1 as [_ [H3 _]]. rewrite (H3 ns r s _ Hr E2) in E. discriminate.
+    - intros s Hs _. cbn [init c_mgr]. rewrite Hc. reflexivity.
+    - intros s ns Hs H1 H2. exfalso. cbn [init c_mgr] in H2. rewrite (H01 ns s Hs) in H2. lia.
+    - discriminate.
+    - intros ns Hn. cbn [init c_mgr]. apply mb_zero. apply Hx. exact Hn.
+  Qed.
+
+  (* invariant of the combined configuration: one refusing connect task in front of / past its handler *)
+  Definition XInv (xc : xcfg) : Prop :=
+    exists p, x_conns xc = [mkCT k p] /\ (p = KHandler \/ p = KSendErr \/ p = KDone) /\
+      SafeC ac x nx m0 m1 p (x_cfg xc) /\ quiet (x_cfg xc) /\
+      chcount x nx (x_log xc) = match p with KHandler => 0 | _ => 1 end.
+
+  Lemma chcount_refusal l : chcount x nx (XCHandler x nx :: map XL l) = 1.
+  Proof.
+    unfold chcount. cbn [filter is_chandler]. rewrite !str_eqb_refl. cbn [andb List.length]. f_equal.
+    apply (chcount_XL x nx l).
+  Qed.
+
+  Lemma xstep_XInv xc i : XInv xc -> XInv (fst (xstep ac R xc i)).
+  Proof.
+    intros (p & Hc & Hp & HS & Hq & Hch). unfold xstep.
+    destruct (Nat.ltb i (List.length (c_tasks (x_cfg xc)))).
+    - destruct (lift_step_async R (SafeC ac x nx m0 m1 p) (safeC_micro ac R x nx m0 m1 H01 p) (x_cfg xc) i HS Hq) as [A B].
+      destruct (step GAsync R (x_cfg xc) i) as [c' l] eqn:E. cbn [fst] in *. exists p. cbn [x_conns x_cfg x_log].
+      split; [exact Hc|]. split; [exact Hp|]. split; [exact A|]. split; [exact B|].
+      rewrite chcount_app, chcount_XL, Nat.add_0_r. exact Hch.
+    - rewrite Hc. destruct (i - List.length (c_tasks (x_cfg xc))) as [|j].
+      2:{ cbn [nth_error]. destruct j; cbn [nth_error fst]; exists p; auto. }
+      cbn [nth_error]. unfold cstep. cbn [ct_pc ct_conn].
+      destruct Hp as [-> | [-> | ->]].
+      + (* in front of the handler: it refuses *)
+        rewrite Hrefuse. destruct (Bool.bool_dec ac true) as [Eac|Eac]; [|apply Bool.not_true_is_false in Eac]; rewrite Eac.
+        * pose proof (safeC_cmark ac x nx m0 m1 (x_cfg xc) Eac HS Hq) as HS1.
+          destruct (pre_disconnect (c_mgr (x_cfg xc)) x nx) as [m' r] eqn:E. cbn [fst] in HS1.
+          destruct r as [o|e]; cbn [fst x_conns x_cfg x_log upd set_cpc ct_conn].
+          -- exists KSendErr. split; [reflexivity|]. split; [auto|]. split; [exact HS1|]. split; [exact Hq|].
+             cbn [x_log]. rewrite chcount_app, Hch. apply (chcount_refusal [LMark x nx (Ok o)]).
+          -- exists KDone. split; [reflexivity|]. split; [auto|].
+             split; [|split; [exact Hq|]].
+             ++ exact (safeC_cdisc ac x nx m0 m1 H01 KSendErr (set_mgr (x_cfg xc) m') (or_intror eq_refl) HS1 Hq).
+             ++ cbn [x_log]. rewrite chcount_app, Hch. apply (chcount_refusal [LMark x nx (Err e); LDisc x nx; LRaise e]).
+        * cbn [fst x_conns x_cfg x_log upd set_cpc ct_conn]. exists KSendErr.
+          split; [reflexivity|]. split; [auto|]. rewrite set_mgr_same.
+          split; [|split; [exact Hq|]].
+          -- exact (safeC_cnoac ac x nx m0 m1 (x_cfg xc) Eac HS).
+          -- cbn [x_log]. rewrite chcount_app, Hch. apply (chcount_refusal []).
+      + (* the refusal is sent; finally: manager.disconnect *)
+        cbn [fst x_conns x_cfg x_log upd set_cpc ct_conn]. exists KDone.
+        split; [reflexivity|]. split; [auto|].
+        split; [exact (safeC_cdisc ac x nx m0 m1 H01 KSendErr (x_cfg xc) (or_intror eq_refl) HS Hq)|].
+        split; [exact Hq|]. cbn [x_log]. rewrite chcount_app, Hch. unfold chcount. reflexivity.
+      + cbn [fst x_conns x_cfg x_log upd]. exists KDone. rewrite set_mgr_same, app_nil_r. auto 10.
+  Qed.
+
+  Lemma xrun_XInv sched : forall xc, XInv xc -> XInv (xrun ac R xc sched).
+  Proof.
+    induction sched as [|i r IH]; intros xc H; [exact H|]. cbn [xrun]. apply IH. apply xstep_XInv. exact H.
+  Qed.
+End RefuseRun.
+
+(* 4. every schedule of the terminating causes beside a CONNECT in progress that will be REFUSED *)
+Theorem connect_in_progress_refuse_partial :
+  forall ac R m0 env0 causes k,
+    quiescent_start m0 -> fresh_sid m0 (k_sid k) -> memb (k_eio k) env0 = true -> k_accept k = false ->
+    snd (mgr_connect m0 (k_eio k) (k_ns k) (k_sid k)) <> None ->
+    forall sched,
+      let x := xrun ac R (xinit m0 env0 causes [k]) (to_handler ac (List.length causes) ++ sched) in
+      let c := x_cfg x in
+      (forall s ns, s <> k_sid k -> hcount s ns (c_log c) <= 1) /\
+      (forall s ns, s <> k_sid k -> 1 <= hcount s ns (c_log c) -> in_room m0 ns PNone s = true) /\
+      (forall s ns r, s <> k_sid k -> hcount s ns (c_log c) = 0 -> room_ok r ->
+         in_room (c_mgr c) ns r s = in_room m0 ns r s) /\
+      (forall s, s <> k_sid k -> (forall ns, hcount s ns (c_log c) = 0) ->
+         aget str_eqb (callbacks (c_mgr c)) s = aget str_eqb (callbacks m0) s) /\
+      (all_done c = true -> forall s ns, s <> k_sid k -> hcount s ns (c_log c) = 1 ->
+         (forall r, room_ok r -> in_room (c_mgr c) ns r s = false) /\
+         is_connected (c_mgr c) (Some s) ns = false /\
+         aget str_eqb (callbacks (c_mgr c)) s = None) /\
+      (forallb cdone (x_conns x) = true ->
+         chcount (k_sid k) (k_ns k) (x_log x) = 1 /\
+         (forall ns r, room_ok r -> in_room (c_mgr c) ns r (k_sid k) = false) /\
+         (forall ns, is_connected (c_mgr c) (Some (k_sid k)) ns = false) /\
+         aget str_eqb (callbacks (c_mgr c)) (k_sid k) = None) /\
+      (xall_done x = true -> forall s ns, is_pending (c_mgr c) s ns = false).
+Proof.
+  intros ac R m0 env0 causes k HQ Hf Henv Href Hadm sched x c.
+  destruct (prefix_to_handler ac R m0 env0 causes k Henv Hadm) as (Hc0 & Hk0 & Hch0).
+  assert (HI : XInv ac m0 k x).
+  { unfold x. rewrite xrun_app. apply (xrun_XInv ac R m0 k HQ Hf Href Hadm).
+    exists KHandler. split; [exact Hk0|]. split; [auto|]. rewrite Hc0.
+    split; [apply (safeC_init ac m0 env0 causes k HQ Hf Href Hadm)|]. split; [|exact Hch0].
+    intros t Ht. cbn [init c_tasks] in Ht. apply in_map_iff in Ht as (k0 & <- & _). destruct k0; reflexivity. }
+  destruct HI as (p & Hconns & Hp & HS & Hq & Hch). fold c in HS, Hq.
+  pose proof (H01 m0 k HQ Hf Hadm) as H01'.
+  destruct (reg_facts m0 k HQ Hf Hadm) as (_ & _ & _ & Hm & _).
+  set (m1 := fst (mgr_connect m0 (k_eio k) (k_ns k) (k_sid k))) in *.
+  unfold SafeC in HS.
+  assert (Hbound : forall s ns, s <> k_sid k -> hcount s ns (c_log c) <= mb m0 ns s /\
+                     (hcount s ns (c_log c) = 0 -> mb (c_mgr c) ns s = mb m0 ns s)).
+  { intros s ns Hs. pose proof (a_hand _ _ _ _ _ _ _ _ _ _ HS s ns Hs) as A.
+    pose proof (a_own _ _ _ _ _ _ _ _ _ _ HS s ns Hs) as B.
+    pose proof (a_mono _ _ _ _ _ _ _ _ _ _ HS ns s) as C. rewrite (H01' ns s Hs) in C.
+    unfold hcF, postF, preF in *. lia. }
+  assert (Hnone : forall s ns r, room_ok r -> mb (c_mgr c) ns s = 0 -> in_room (c_mgr c) ns r s = false).
+  { intros s ns r Hr H0. apply mb_zero in H0. rewrite in_room_mem, (a_frame _ _ _ _ _ _ _ _ _ _ HS ns r s Hr), H0. reflexivity. }
+  destruct HQ as (HW & _ & _).
+  split; [|split; [|split; [|split; [|split; [|split]]]]].
+  - intros s ns Hs. destruct (Hbound s ns Hs) as [A _]. pose proof (mb_le1 m0 ns s). lia.
+  - intros s ns Hs H. destruct (Hbound s ns Hs) as [A _]. pose proof (mb_le1 m0 ns s).
+    assert (E : mb m0 ns s = 1) by lia. apply mb_one in E as [e E]. rewrite in_room_mem, E. reflexivity.
+  - intros s ns r Hs H0 Hr. destruct (Hbound s ns Hs) as [_ B]. specialize (B H0).
+    rewrite !in_room_mem, (a_frame _ _ _ _ _ _ _ _ _ _ HS ns r s Hr), (Hm ns r s Hr Hs).
+    destruct (mem (c_mgr c) ns PNone s) as [e|] eqn:E; cbn [is_some]; [reflexivity|].
+    assert (E0 : mem m0 ns PNone s = None) by (apply mb_zero; rewrite <- B; apply mb_zero; exact E).
+    destruct (mem m0 ns r s) as [e|] eqn:E2; [|reflexivity].
+    destruct HW as [_ [H3 _]]. rewrite (H3 ns r s e Hr E2) in E0. discriminate.
+  - intros s Hs H0. apply (a_cbs _ _ _ _ _ _ _ _ _ _ HS s Hs). intros ns. apply (Hbound s ns Hs). apply H0.
+  - intros Hd s ns Hs H1.
+    assert (Hpost : postF c s ns = 0).
+    { unfold postF. apply cnt_zero. intros t Ht. apply idle_post. rewrite (all_done_pc c Hd t Ht). reflexivity. }
+    pose proof (a_hand _ _ _ _ _ _ _ _ _ _ HS s ns Hs) as A. unfold hcF in A. rewrite Hpost, H1 in A.
+    pose proof (mb_le1 m0 ns s).
+    assert (G : mb (c_mgr c) ns s = 0) by lia. assert (G0 : mb m0 ns s = 1) by lia.
+    split; [intros r Hr; apply Hnone; assumption|].
+    split; [rewrite is_connected_spec; apply mb_zero in G; rewrite G, andb_false_r; reflexivity|].
+    apply (a_cbs_gone _ _ _ _ _ _ _ _ _ _ HS s ns Hs G0 G).
+  - intros Hd. rewrite Hconns in Hd. cbn [forallb cdone ct_pc] in Hd.
+    assert (Ep : p = KDone) by (destruct Hp as [-> | [-> | ->]]; [discriminate Hd|discriminate Hd|reflexivity]).
+    subst p. split; [exact Hch|].
+    destruct (a_xdone _ _ _ _ _ _ _ _ _ _ HS eq_refl) as [A B].
+    assert (G : forall ns, mb (c_mgr c) ns (k_sid k) = 0).
+    { intro ns. destruct (list_eq_dec N.eq_dec ns (k_ns k)) as [->|N]; [exact A|apply (a_xother _ _ _ _ _ _ _ _ _ _ HS ns N)]. }
+    split; [intros ns r Hr; apply Hnone; [exact Hr|apply G]|].
+    split; [|exact B]. intro ns. rewrite is_connected_spec. pose proof (G ns) as G1. apply mb_zero in G1.
+    rewrite G1, andb_false_r. reflexivity.
+  - intros Hd s ns. unfold xall_done in Hd. apply andb_true_iff in Hd as [Hd1 Hd2]. fold c in Hd1.
+    rewrite Hconns in Hd2. cbn [forallb cdone ct_pc] in Hd2.
+    assert (Ep : p = KDone) by (destruct Hp as [-> | [-> | ->]]; [discriminate Hd2|discriminate Hd2|reflexivity]).
+    subst p. rewrite is_pending_count.
+    pose proof (a_le _ _ _ _ _ _ _ _ _ _ HS s ns) as A. unfold preF, postF in A.
+    rewrite !cnt_zero in A.
+    + assert (E : br ac KDone = 0) by (unfold br; destruct ac; reflexivity). rewrite E in A.
+      destruct (pcount (c_mgr c) ns s); [reflexivity|lia].
+    + intros t Ht. apply idle_post. rewrite (all_done_pc c Hd1 t Ht). reflexivity.
+    + intros t Ht. apply idle_pre. rewrite (all_done_pc c Hd1 t Ht). reflexivity.
+Qed.
+
+
+(* ---- the hypotheses of the refusing case are satisfiable; a non-trivial run ---- *)
+Example x_refuse_start :
+  let k := mkConn x_e0 (s2l "/c") (x_S "S9") false in
+  quiescent_start x_full /\ fresh_sid x_full (k_sid k) /\ memb (k_eio k) [x_e0; x_e1] = true /\
+  k_accept k = false /\ snd (mgr_connect x_full (k_eio k) (k_ns k) (k_sid k)) <> None /\
+  (* always_connect: the transport is lost while the handler is suspended; the refusal then finds
+     its namespace gone (KeyError in pre_disconnect), and still nothing of S9 is left *)
+  let x := xrun true [] (xinit x_full [x_e0; x_e1] [CLoss x_e0 (s2l "transport close")] [k])
+                (to_handler true 1 ++ [0; 0; 0; 0; 0; 0; 1; 1; 0]) in
+  xall_done x = true /\ chcount (x_S "S9") (s2l "/c") (x_log x) = 1 /\
+  hcount (x_S "S0") x_sl (c_log (x_cfg x)) = 1 /\ hcount (x_S "S9") (s2l "/c") (c_log (x_cfg x)) <= 1 /\
+  is_connected (c_mgr (x_cfg x)) (Some (x_S "S9")) (s2l "/c") = false.
+Proof.
+  cbv zeta. split; [exact x_full_start|]. split.
+  { split; [discriminate|]. intro ns. unfold mem, look, nsmap, agetd.
+    set (rs := rooms x_full). vm_compute in rs. subst rs. cbn [aget].
+    repeat (destruct (str_eqb _ ns)); vm_compute; reflexivity. }
+  split; [vm_compute; reflexivity|]. split; [reflexivity|]. split; [vm_compute; discriminate|].
+  vm_compute. repeat split; try reflexivity; lia.
+Qed.
